@@ -1275,6 +1275,29 @@ for _pid in ("C19", "C17", "C01", "C05"):
     _add_tie(_pid, "TaffyVerif.Props.TieLayoutTree", TIE_LAYOUT_TREE)
     _add_tie(_pid, "TaffyVerif.Props.TieRoot", TIE_ROOT)
 
+# fourth batch (extract/src/{loops,flexline}.rs): slices / Vec as lists, iterator chains, `for` over `&mut [T]` as map / fold, filtered
+# mutable views, `loop { if c { break; } … }` under fuel: the per-line functions of compute/flexbox.rs -> Generated/FlexLine.lean.
+# `resolve_flexible_lengths` in full (the freeze loop C07 / C03 / C04 are about), `sum_axis_gaps`, `FlexItem::is_scroll_container`,
+# `distribute_remaining_free_space`; Props/TieFlexLine.lean proves them equal to Model/FlexLine.lean through the main-axis projection.
+TIE_FLEXLINE = ["TieFlexLine." + t for t in (
+    "sum_f32_eq sum_axis_gaps_eq is_scroll_container_eq fold_mut_where_split loop_body_spec rfl_spec loop_body_toM "
+    "loop_body_with loop_body_Fr loop_eq resolve_flexible_lengths_eq resolveFlexibleLengthsLine_eq "
+    # distribute_remaining_free_space (auto margins, justify-content through the translated alignment helpers)
+    "distribute_spec apply_alignment_fallback_eq compute_alignment_offset_eq gDistributeLine_toM gDistributeLine_Fr "
+    "gDistributeLine_with distribute_remaining_free_space_eq computeConstants_isRow distribute_needs_isRow_witness").split()]
+TIE_FLEXLINE_TRUSTED = ("tier T (flex-line functions): Generated/FlexLine.lean is translated from src/compute/flexbox.rs on every run "
+                        "(verif/extract/src/{loops,flexline}.rs): a slice is a list; `for x in xs.iter_mut()` is List.map / List.foldl; a filtered "
+                        "mutable view `xs.iter_mut().filter(p).collect()` is (xs, p) (a loop over it updates the elements satisfying p; using it "
+                        "after a loop wrote a field p reads is an extraction error); `iter().sum::<f32>()` folds + from -0.0; the freeze `loop` "
+                        "runs under an iteration bound (`none` = not finished; C03Flex.freeze_loop_terminates bounds it by the item count); "
+                        "struct FlexItem / FlexLine / AlgoConstants are compared field by field with the records of Model/Flex.lean "
+                        "(`node: NodeId` is the child index). Props/TieFlexLine.lean proves resolve_flexible_lengths on full FlexItems equal to "
+                        "FlexLine.resolveFlexibleLengths on the main-axis projection, written back (zipBack), for every [Num α], fuel and input, and "
+                        "distribute_remaining_free_space equal to FlexModel.distributeLine on every line under isRow = dir.isRow (set by compute_constants)")
+for _pid in ("C07", "C03", "C04"):
+    _add_tie(_pid, "TaffyVerif.Props.TieFlexLine", TIE_FLEXLINE)
+    PROPS[_pid]["trusted_base"] = list(PROPS[_pid].get("trusted_base", [])) + [TIE_FLEXLINE_TRUSTED]
+
 # Tier T for TaffyTree's structural methods (src/tree/taffy_tree.rs): every statement of every structural method is translated from
 # the source on every run (extract/src/treeops.rs -> Generated/TreeOps.lean, programs of the monad Model/TreeInterp.lean);
 # Props/TieTree.lean proves each translated method equal to the hand-written model function of Model/Tree.lean on EVERY state and
